@@ -19,6 +19,9 @@ func ssaEval(f *ssa.Function, bind func(v ssa.Value) (constant.Value, bool)) (re
 	return ssaEvalDepth(f, bind, 0)
 }
 
+// ssaEvalVisit, when set, is told every block the interpreter enters.
+var ssaEvalVisit func(f *ssa.Function, b *ssa.BasicBlock, eval func(ssa.Value) (constant.Value, bool))
+
 func ssaEvalDepth(f *ssa.Function, bind func(v ssa.Value) (constant.Value, bool), depth int) (res ssa.Value, val constant.Value, ok bool) {
 	if len(f.Blocks) == 0 || depth > 4 {
 		return nil, nil, false
@@ -176,6 +179,9 @@ func ssaEvalDepth(f *ssa.Function, bind func(v ssa.Value) (constant.Value, bool)
 					delete(memo, v)
 				}
 			}
+		}
+		if ssaEvalVisit != nil {
+			ssaEvalVisit(f, cur, eval)
 		}
 		last := cur.Instrs[len(cur.Instrs)-1]
 		switch x := last.(type) {
